@@ -40,7 +40,17 @@ def run : Runner
         | "ok" :: re :: _ => if re == s' then "ok" else "violated:reserialise"
         | _ => "violated:own string rejected")
       | _ => "violated:shape"
-    pure { model := s!"{Bytes.tok s} {tokB priv} {depth} {Bytes.toNatBE pfp} {xkeyObs (NewKeyFromString X s)}", prop }
+    let nb := String.join (Address.nets.map fun n => tokB (ver == n.hdPriv || ver == n.hdPub))
+    let prop := match impl.splitOn " " with
+      | [s', _, _, _, _, parsed] =>
+        (match parsed.splitOn "," with
+        | "ok" :: re :: _ => if re == s' then "ok" else "violated:reserialise"
+        | _ => "violated:own string rejected")
+      | _ => "violated:shape"
+    pure { model := s!"{Bytes.tok s} {nb} {tokB priv} {depth} {Bytes.toNatBE pfp} {xkeyObs (NewKeyFromString X s)}", prop }
+  | "seedgen", [_, l], _ => do
+    let l ← nat? l
+    pure { model := if l < 16 ∨ l > 64 then "err:seedlen" else s!"ok:{l}:1", prop := "spec" }
   | "xrt", [_, net, seed, path], impl => do
     let ni ← nat? net
     let net ← Address.nets[ni]?
